@@ -5,6 +5,7 @@ var ListMixin *Mixin // ::Std::List
 func initList() {
 	ListMixin = NewMixin()
 	ListMixin.IncludeMixin(TupleMixin)
+	ListMixin.IncludeMixin(CollectionBaseMixin)
 	StdModule.AddConstantString("List", Ref(ListMixin))
 	RegisterNativeMixin("Std::List", "value.ListMixin")
 }
